@@ -3,6 +3,7 @@ import WfProofs.EngineTelemetry
 import WfProofs.RunnerNoCrash
 import WfProofs.EnginePolicyEscapes
 import WfProofs.StreamGate
+import WfProofs.WorkerCleanup
 /-!
 # C04 — every run ends once, and its stream ends with the matching terminal event
 
@@ -361,3 +362,71 @@ theorem C04_overlap_guard_position_matters (flag : Bool) :
   ⟨[.arrive 0 none, .arrive 1 none, .publish .term, .take, .complete, .finish, .wake], by cases flag <;> decide⟩
 
 end Overlap
+
+/-! ## Step workers whose cancellation takes a while (`cleanup_tasks`)
+
+Every ending stops the other step workers **before** the terminal event is published (`_process_tick` /
+`run`: `await self.cleanup_tasks()` first).  Cancelling a task is only a request: a body with an asynchronous
+teardown (`finally: await client.aclose()`), or one that catches the `CancelledError`, keeps running for a while and
+may write to the stream when it is through.  `WfModel/WorkerCleanup.lean` models the rest of a cancelled body as any
+list of segments (wait, reaction to a further cancellation: abort / skip / ignore, optional write) and the await of
+`cleanup_tasks` as the current source has it (`WorkerCleanup.srcAwait`, `srcGrace`; re-extracted on every run):
+
+* `C04_cleanup_source_shape` pins the extracted shape: every worker task is cancelled, then ONE await on them,
+  `asyncio.wait_for(asyncio.gather(*self.worker_tasks, return_exceptions=True), timeout=0.5)` under `except Exception`,
+  and the table is cleared only afterwards;
+* the statement, `C04_cleanup_statement`: for every list of workers, when `cleanup_tasks` returns — the terminal event
+  goes out next — no worker is still running and none writes later.  `C04_cleanup_holds`: a theorem of the current
+  source, for all bodies (also ones deaf to cancellation: the method then returns late, `C04_cleanup_returns_with_last`),
+  whatever the grace period (`C04_cleanup_any_grace`);
+* with `asyncio.wait(self.worker_tasks, timeout=0.5)` in its place ("never raises") the statement is false
+  (`C04_cleanup_refuted_wait_only`: one worker, a teardown of 1.25 s, then a write); what remains true then
+  (`C04_cleanup_wait_only_partial`): only bodies that are through within the grace period on their own. -/
+
+section Cleanup
+open WorkerCleanup
+
+theorem C04_cleanup_source_shape :
+    GenWorkerCleanup.found = true ∧ GenWorkerCleanup.cancelsEvery = true ∧ GenWorkerCleanup.cancelBeforeAwait = true ∧
+    GenWorkerCleanup.awaitCount = 1 ∧ GenWorkerCleanup.awaitShape = 1 ∧ GenWorkerCleanup.awaitGuarded = true ∧
+    GenWorkerCleanup.clearAfterAwait = true ∧ GenWorkerCleanup.graceEighths = 4 ∧
+    srcAwait = .waitForGather ∧ srcGrace = 4 := by decide
+
+/-- whatever the cancelled bodies do: when `cleanup_tasks` returns nobody is still running and nobody writes later -/
+def C04_cleanup_statement (a : Await) (grace : Nat) : Prop :=
+  ∀ ws : List Prog, ∃ o, cleanup a grace ws = some o ∧ NoStraggler o
+
+theorem C04_cleanup_any_grace (grace : Nat) : C04_cleanup_statement .waitForGather grace :=
+  fun ws => waitForGather_noStraggler grace ws
+
+theorem C04_cleanup_holds : C04_cleanup_statement srcAwait srcGrace := by
+  have h : srcAwait = .waitForGather := by decide
+  rw [h]
+  exact C04_cleanup_any_grace srcGrace
+
+/-- a teardown of 1.25 s that then writes, one cut short by the second cancellation that still writes, one deaf to
+cancellation (the method waits for it: 2.5 s), one through in time -/
+example : cleanup srcAwait srcGrace [slowTeardown, [⟨10, .skip, true⟩], [⟨20, .ignore, true⟩], [⟨2, .abort, true⟩]]
+    = some ⟨20, [⟨4, []⟩, ⟨4, [4]⟩, ⟨20, [20]⟩, ⟨2, [2]⟩]⟩ := by decide
+
+theorem C04_cleanup_returns_with_last (grace : Nat) (ws : List Prog) (o : Out)
+    (h : cleanup .waitForGather grace ws = some o) : o.returned = maxList (o.workers.map (·.done)) :=
+  waitForGather_returns_with_last grace ws o h
+
+theorem C04_cleanup_refuted_wait_only : ¬ C04_cleanup_statement .waitOnly 4 := by
+  intro h
+  obtain ⟨o, ho, hn⟩ := h [slowTeardown]
+  have h2 : cleanup .waitOnly 4 [slowTeardown] = some ⟨4, [⟨10, [10]⟩]⟩ := by decide
+  rw [h2] at ho
+  have := Option.some.inj ho
+  subst this
+  exact absurd hn (by decide)
+
+theorem C04_cleanup_wait_only_partial (grace : Nat) (ws : List Prog)
+    (hfast : ∀ p ∈ ws, (runProg p 0 none).done ≤ grace) :
+    ∃ o, cleanup .waitOnly grace ws = some o ∧ NoStraggler o :=
+  waitOnly_noStraggler_of_fast grace ws hfast
+
+example : ∀ p ∈ [[(⟨2, .abort, true⟩ : Seg)], [⟨1, .skip, false⟩, ⟨2, .ignore, true⟩]], (runProg p 0 none).done ≤ 4 := by decide
+
+end Cleanup
